@@ -217,6 +217,7 @@ class Instr:
         self.sc = sc
         self.exec_log = []
         self.hits = []  # nodes whose cache answered
+        self.attempts = []  # nodes asked to run (also those that then refuse: failed / running / not ready)
         self.obs = {}  # target gid -> [order, chain]
         self.cur = None
 
@@ -234,6 +235,13 @@ class Instr:
             return me.o_hit(self_)
 
         nd.Node._on_cache_hit = on_hit
+        self.o_run = nd.Node.run
+
+        def run(self_, *a, **k):
+            me.attempts.append(me.sc.gid.get(id(self_), -1))
+            return me.o_run(self_, *a, **k)
+
+        nd.Node.run = run
 
         def on_run(self_, *a, **k):
             me.exec_log.append(me.sc.gid.get(id(self_), -1))
@@ -247,6 +255,7 @@ class Instr:
     def __exit__(self, *exc):
         self.nd.Node.on_run = self.o_on_run
         self.nd.Node._on_cache_hit = self.o_hit
+        self.nd.Node.run = self.o_run
         return False
 
 
@@ -459,7 +468,7 @@ def run_impl(case):
                 "hits": list(ins.hits),
                 "submitted": 0 if pool is None else len(pool.parked),
                 "calls": [c[0] for c in nodes.CALL_LOG],
-                "obs": _derive_obs(sc, t, bool(parents), ins.exec_log),
+                "obs": _derive_obs(sc, t, bool(parents), ins.attempts),
                 "edits": edits,
                 "deps": live_deps(sc),
                 "slots": live_slots(sc),
